@@ -247,7 +247,7 @@ func init() {
 	reg(&Property{ID: "C18", Units: []Unit{
 		{Name: "fault-injection", Harness: "pkg/generator:HarnessC18", Layer: "L3",
 			Desc:   "a valid schema with one ungeneratable element (unknown type, $ref to a missing definition, empty enum, non-primitive enum value, $ref that does not point to a definition) injected at one of 9 positions (property, array item, nested member, member of a referenced / unreferenced definition, member of an allOf / anyOf branch, own property beside allOf, an allOf branch itself): addFile returns an error on every path and no path panics",
-			Bounds: "5 fault kinds x 9 positions, depth <= 2; the harness stops at generator.addFile (main.go's exit status / stdout / file writes, cobra flag parsing, unparsable or unreadable input files are NOT covered)",
+			Bounds: "5 fault kinds x 9 positions, depth <= 2; the harness stops at generator.addFile (main.go's behaviour is the subject of the unit cli/failures-are-loud-and-clean)",
 			Panic:  "violation"},
 		{Name: "valid-shapes-never-fail", Harness: "pkg/generator:HarnessC18Valid", Layer: "L3",
 			Desc:   "every shape of the grammar (all kinds, depth 1) under all combinations of --min-sized-ints / --extra-imports / --only-models with symbolic constraint values: generation succeeds and no panic path is feasible",
@@ -258,12 +258,20 @@ func init() {
 			Desc:   "legal but unusual inputs (a property that is {\"$ref\": \"#\"}, an object default with an empty key, an empty property name): no panic",
 			Bounds: "three concrete shapes",
 			Panic:  "violation"},
+		{Name: "cli/failures-are-loud-and-clean", Harness: ".:HarnessCLIFailures", Layer: "L3",
+			Desc:   "main.go's Run closure with the real loaders and parser on a virtual file system and an OS model (os.Open/OpenFile/MkdirAll/Write/Exit, the standard streams): no arguments, no package, a malformed --schema-package/--schema-output/--schema-root-type value, and one bad input file (missing, unparsable, unknown type, $ref to a missing definition, $ref to a missing file) alone, before or after a good file, with outputs to stdout or to files: a failing run exits non-zero with a 'Failed' diagnostic on stderr, writes nothing to stdout and creates no file; the fault-free run exits 0 with complete output",
+			Bounds: "one fault per run, two input files, outputs to stdout or two files; cobra's flag parsing and help output, unreadable (permission) files, write errors and YAML inputs are outside (flag variables are set directly; the OS model never fails a write)",
+			Panic:  "violation"},
 	}})
 	reg(&Property{ID: "C16", Units: []Unit{
 		{Name: "one-option-apart", Harness: "pkg/generator:HarnessC16", Layer: "L3",
 			Desc:   "one symbolic schema (shape grammar plus anyOf/allOf of $ref'd definitions) generated twice under configurations differing in exactly one option; the emitted files are compared at declaration level (hole identifiers by their terms): --only-models = same type declarations and no functions/variables; --tags = equal after erasing struct tags; without --extra-imports = the full output minus YAML methods/imports with identical JSON methods",
-			Bounds: "options --only-models, --tags (json only), --extra-imports; shapes G(1,1); --capitalization / --struct-name-from-title / --schema-root-type (identifier renaming) and main.go's flag wiring are not covered; the comparison is a concrete per-path oracle on the symbolic output (the solver contributes the path partition)",
+			Bounds: "options --only-models, --tags (json only), --extra-imports; shapes G(1,1); --capitalization / --struct-name-from-title / --schema-root-type (identifier renaming) are not covered here; the comparison is a concrete per-path oracle on the symbolic output (the solver contributes the path partition)",
 			Quick:  map[string]int{"GRID": 2, "GRIDMAG": 36, "NUMSHAPES": 3, "STRSHAPES": 3, "ARRSHAPES": 3},
+			Panic:  "inconclusive"},
+		{Name: "cli/flag-wiring", Harness: ".:HarnessCLIFlagWiring", Layer: "L3",
+			Desc:   "main.go's Run closure under all 128 combinations of --extra-imports, --only-models, --struct-name-from-title, --min-sized-ints, a --capitalization, a --tags list and a --schema-root-type mapping: the bytes on stdout equal what the library emits for the generator.Config those flags denote (each flag reaches the field it names and no other)",
+			Bounds: "one schema file; flag variables set directly (cobra's parsing and flag names are outside)",
 			Panic:  "inconclusive"},
 	}})
 	reg(&Property{ID: "C20", Units: []Unit{
@@ -321,6 +329,10 @@ func init() {
 			Desc:   "every `range` over a Go map executed in repository code (sites discovered dynamically: sortedKeys, sortDefinitionsByName, Sources, beginOutput, hasDecl...) is a schedule choice; all orders of maps with <= 3 entries are explored and every schedule must emit byte-identical files under identical names (hole terms compared syntactically)",
 			Bounds: "three harness shapes (single file with 3 properties / 2 definitions; two schema ids mapped to two files and packages; definition names differing only in case); maps with <= K=5 entries per site; schedules are enumerated by forking -- the solver contributes nothing here beyond hole identity (weakest fit of the family, stated in DESIGN §8 C12); JSON key permutation is map order after parsing; directory independence and main.go's allKeys are not covered",
 			Quick:  map[string]int{"SHAPES": 3},
+			Panic:  "inconclusive"},
+		{Name: "cli/map-order-schedules", Harness: ".:HarnessCLIDeterminism", Layer: "L3", MapOrd: 4, SameEmits: true,
+			Desc:   "main.go's Run closure (flag variables set directly; stringSliceToStringMap, allKeys, the mapping loop, generator.New, DoFile through the real cached/multi/file loaders and the real JSON parser on a virtual file system, the Sources loop with MkdirAll/OpenFile/Write, os.Exit) executed under every iteration order of every map the CLI or the generator ranges over: seven flag/argument scenarios (no mapping; package+output under one key; two spellings of one schema id in different and in the same flag map; two schemas fully mapped; external $ref with one default file; one schema to a file and one to stdout) must each give ONE exit status, ONE stdout and ONE set of files",
+			Bounds: "seven scenarios over two small schema files; maps with <= 4 entries; cobra's flag parsing is outside (flag variables are set directly); schedules are enumerated by forking (no solver query is needed: all data is concrete)",
 			Panic:  "inconclusive"},
 	}})
 	reg(&Property{
